@@ -1,4 +1,5 @@
 import PhyVerif.Model.C05
+import PhyVerif.Model.C05b
 import PhyVerif.Spec.C05
 import PhyVerif.Lemmas.C05
 import PhyVerif.Lemmas.C05b
@@ -88,7 +89,50 @@ theorem usedMax_spec (Tw : Mat) (cols : List Int) (m : Int) (h : usedCols cols m
     ∀ j ∈ usedCols cols m, colAbsMax Tw j ≤ listMax ((usedCols cols m).map (colAbsMax Tw)) :=
   Lemmas.usedMax_spec Tw cols m h
 
+/-- Floating-point path of an unwhitened dense request (model.py:908, `self._unwhiten(template_w).astype(np.float32)`):
+the record is the C05 record OF THE SINGLE PRECISION WAVEFORM `denseF32Input` — listed channels, their order, the
+amplitude vector and the columns all refer to the rounded waveform that is returned (not to the double precision
+product).  `hwf`: shape of the rounded waveform (the cast keeps the shape of the stored template). -/
+theorem dense_f32_record_ok (g : Geometry) (wmi : Mat) (sc : Rat) (Tw : Mat) (thr : Rat)
+    (hwf : DenseWF g (denseF32Input wmi sc Tw)) (h0 : 0 ≤ thr) (h1 : thr ≤ 1) :
+    denseOK g (denseF32Input wmi sc Tw) thr (getTemplateDenseF32 g wmi sc Tw none thr) = true := by
+  have h := Lemmas.dense_record_ok g (denseF32Input wmi sc Tw) thr hwf h0 h1
+  unfold getTemplateDenseF32
+  rw [Lemmas.getTemplateDense_auto]
+  exact h
+
+/-- the same with the caller's explicit channel list -/
+theorem dense_f32_explicit_ok (g : Geometry) (wmi : Mat) (sc : Rat) (Tw : Mat) (l : List Nat) (thr : Rat)
+    (hwf : DenseWF g (denseF32Input wmi sc Tw)) (hl : ∀ c ∈ l, c < ncols (denseF32Input wmi sc Tw)) :
+    denseExplicitOK (denseF32Input wmi sc Tw) l (getTemplateDenseF32 g wmi sc Tw (some l) thr) = true :=
+  Lemmas.dense_explicit_ok g wmi sc (denseF32Input wmi sc Tw) l thr false hwf hl
+
+/-- the casts keep the shape -/
+theorem castF_shape (p : Nat) (M : Mat) :
+    (castF p M).length = M.length ∧ ∀ i, ((castF p M).getD i []).length = (M.getD i []).length := by
+  constructor
+  · simp [castF]
+  · intro i
+    simp only [castF, List.getD_eq_getElem?_getD, List.getElem?_map]
+    cases M[i]? <;> simp
+
 /-! Non-vacuity -/
+-- float32(1/3), float64(1/10), ties to even at 2^24 + 1 and 2^24 + 3, a negative value, an exactly representable one
+example : roundNE 24 (1/3) = 11184811 / 33554432 ∧ roundNE 53 (1/10) = 3602879701896397 / 36028797018963968 ∧
+    roundNE 24 16777217 = 16777216 ∧ roundNE 24 16777219 = 16777220 ∧ roundNE 24 (-16777219) = -16777220 ∧
+    roundNE 24 (5/8) = 5/8 ∧ roundNE 24 0 = 0 ∧ roundNE 24 33554435 = 33554436 := by decide +kernel
+-- inverse whitening 1/0.7 (as a double): the double precision products of channels 0 and 1 have peak-to-peak
+-- 8.9085708345... > 8.9085704939..., their single precision roundings 8.90857029 < 8.90857124: the record lists
+-- channel 1 BEFORE channel 0 (order of the returned columns), after the peak channel 2
+example :
+    let w : Rat := 6433713753386423 / 4503599627370496
+    let g : Geometry := ⟨[(0, 0), (0, 20), (0, 41)], none, 3⟩
+    let Tw : Mat := [[14416054 / 4194304, 12173928 / 4194304, 8], [-11739624 / 4194304, -13981749 / 4194304, -8]]
+    (getTemplateDenseF32 g [[w, 0, 0], [0, w, 0], [0, 0, w]] 1 Tw none 0).channels = [2, 1, 0] ∧
+    (getTemplateDense g [[w, 0, 0], [0, w, 0], [0, 0, w]] 1 Tw none 0 true).channels = [2, 0, 1] := by decide +kernel
+example : oneTermCols [[2, 0], [0, 1/3]] = true ∧ oneTermCols [[1, 1], [0, 1]] = false ∧
+    ptpExactF 24 [[16777217], [0]] = false ∧ ptpExactF 24 [[16777216], [0]] = true := by decide +kernel
+
 example :
     -- two shanks: the peak channel 2 is alone on its shank, so only it is listed …
     let g : Geometry := ⟨[(0, 0), (0, 20), (0, 40), (0, 60), (10, 10)], some [0, 0, 1, 0, 0], 3⟩
